@@ -18,7 +18,8 @@ from .c17 import gen_schedule
 THEOREMS = ["C18_lock_released_at_exit", "C18_others_proceed", "C18_single_version", "C18_never_mixed",
             "C18_undisturbed_fetch_completes", "C18_fetch_examples", "C18_lock_leak_refuted", "C18_lock_leak_repaired",
             "C18_acknowledgements_change_nothing", "C18_only_fragments_are_stored",
-            "C18_forced_fetch_is_current", "C18_cache_invariant", "C18_early_assignment_refuted"]
+            "C18_forced_fetch_is_current", "C18_cache_invariant", "C18_early_assignment_refuted",
+            "C18_exchanges_under_own_lock", "C18_one_holder", "C18_waiter_ending_releases_nothing", "C18_lock_inside_try_refuted"]
 
 PRELUDE = ("From Coq Require Import List Bool Arith.\nFrom RV Require Import M_Transfer.\nImport ListNotations.\n"
            "Set Printing Width 1000000.\nSet Printing Depth 1000000.\n"
@@ -49,6 +50,7 @@ class Controller:
         self.on_write = None      # called with the zone when a complete write has replaced its schedule
         self.tcs = None           # when set: who holds the system's transfer lock is noted at every fragment exchange
         self.lock_at_call = []    # (zone of the 0404 exchange, tcs.zone_lock_idx at that moment)
+        self.on_exchange = None
 
     def new_schedule(self, z, bump=True, days=None):
         days = days or gen_schedule(self.rng, False, 3)
@@ -70,6 +72,8 @@ class Controller:
             self.verbs.append(cmd.verb)
             if zone is not None and self.tcs is not None:
                 self.lock_at_call.append((zone, self.tcs.zone_lock_idx))
+                if self.on_exchange:
+                    self.on_exchange(zone)
         act = self.plan.get(n)
         waits = bool(kw.get("wait_for_reply"))            # as the protocol FSM reads it: None / False = the echo is enough
         if act == "raise":
@@ -171,6 +175,23 @@ def episode(scn):
         ctl.plan = {int(k): (tuple(v) if isinstance(v, list) else v) for k, v in scn["plan"].items()}
         gwy.async_send_cmd = ctl.send
         ctl.tcs = gwy.tcs
+        # the lock as the transfers see it, event by event (for M_LockWaiters): a transfer reaches the lock / has obtained it / exchanges a fragment / is over
+        lock_events = obs.setdefault("lock_events", [])
+        tcs = gwy.tcs
+
+        def lock_now():
+            return None if tcs.zone_lock_idx is None else int(tcs.zone_lock_idx, 16)
+
+        real_obtain = tcs._obtain_lock
+
+        async def obtain(idx):
+            z = int(idx, 16)
+            lock_events.append(("start", z, lock_now()))
+            await real_obtain(idx)
+            lock_events.append(("obtained", z, lock_now()))
+
+        tcs._obtain_lock = obtain
+        ctl.on_exchange = lambda z: lock_events.append(("exchange", z, lock_now()))
         if scn.get("dispatch"):
             ctl.gwy = gwy
         zones = {int(z.idx, 16): z for z in gwy.tcs.zones}
@@ -213,6 +234,15 @@ def episode(scn):
             except Exception as err:  # noqa: BLE001
                 return ("write-failed:" + type(err).__name__, None)
 
+        def ending(fn):          # ... and is over, however it ended
+            async def wrapped(z, *a, **k):
+                try:
+                    return await fn(z, *a, **k)
+                finally:
+                    lock_events.append(("end", z, lock_now()))
+            return wrapped
+
+        fetch, write = ending(fetch), ending(write)
         for z in scn.get("small", ()):
             ctl.new_schedule(z, bump=False, days=small_schedule(ctl.rng))
             versions_seen[z] = [ctl.zones[z][0]]
@@ -518,8 +548,11 @@ def run(ctx: Ctx) -> None:
         for k in range(4):
             scns.append({"seed": seed, "plan": {}, "steps": [("fetch", 1, 30), ("set-invalid", 0, k), ("bump", 1)] + PROBES, "n_aw": n_aw, "pos": None, "kind": "write-refused"})
     coq_cases, impl_rows = [], []
+    lock_cases = []
     for s in scns:
         o = episode(s)
+        if o.get("lock_events"):
+            lock_cases.append((s, o["lock_events"]))
         res = [r[0] for r in o["results"]]
         ctx.case(("episode", s["seed"], repr(s["plan"]), repr(s["steps"])), bool(s["plan"]), "episode:" + (s["kind"] if isinstance(s["kind"], str) else "bump"))
         case = {"seed": s["seed"], "fault": s["plan"], "steps": s["steps"], "results": res, "lock_after_each_step": o["lock_after"], "requests": o["calls"]}
@@ -584,6 +617,7 @@ def run(ctx: Ctx) -> None:
         ctx.obligation("correspondence:lock-discipline", False, "correspondence", "model not built")
 
     cache_correspondence(ctx, built, 120 if thorough else 40)
+    lock_waiters_correspondence(ctx, built, lock_cases)
     # ---- the reassembly itself: model vupdate/vfeed/fetch against the real _update_payload_set / _get_schedule
     ra = reassembly(rng.randrange(10**6), 600 if thorough else 150, 300 if thorough else 80)
     tot = ra["totals"]
@@ -641,6 +675,64 @@ def run(ctx: Ctx) -> None:
         ctx.obligation("correspondence:reassembly", False, "correspondence", "model not built")
         ctx.obligation("correspondence:fetch-loop", False, "correspondence", "model not built")
         ctx.obligation("correspondence:overheard-traffic", False, "correspondence", "model not built")
+
+
+def lock_shape() -> str:
+    """Both transfer routines do `await self.tcs._obtain_lock(...)` as the statement right BEFORE the try whose finally releases the lock (the
+    structure M_LockWaiters has: a transfer that ends while waiting does not reach the finally)."""
+    import ast  # noqa: PLC0415
+    import inspect  # noqa: PLC0415
+
+    import ramses_rf.system.schedule as S  # noqa: PLC0415
+
+    tree = ast.parse(inspect.getsource(S))
+    cls = next((n for n in ast.walk(tree) if isinstance(n, ast.ClassDef) and n.name == "Schedule"), None)
+    for name in ("_get_schedule", "set_schedule"):
+        fn = next((n for n in ast.walk(cls) if isinstance(n, ast.AsyncFunctionDef) and n.name == name), None) if cls else None
+        if fn is None:
+            return f"Schedule.{name} not found"
+        sites = [i for i, n in enumerate(fn.body) if "_obtain_lock" in ast.unparse(n)]
+        if len(sites) != 1 or isinstance(fn.body[sites[0]], ast.Try) or "_obtain_lock" not in ast.unparse(fn.body[sites[0]]).split("\n")[0]:
+            return f"Schedule.{name}: the lock is no longer obtained by one top-level statement of its own"
+        nxt = fn.body[sites[0] + 1] if sites[0] + 1 < len(fn.body) else None
+        if not (isinstance(nxt, ast.Try) and any("_release_lock" in ast.unparse(x) for x in nxt.finalbody)):
+            return f"Schedule.{name}: `await _obtain_lock` is not directly followed by the try whose finally releases the lock"
+        if sum("_release_lock" in ast.unparse(n) for n in ast.walk(fn) if isinstance(n, ast.Call)) != 1:
+            return f"Schedule.{name}: the lock is released at another place than that finally"
+    return ""
+
+
+def lock_waiters_correspondence(ctx: Ctx, built: bool, cases) -> None:
+    """M_LockWaiters against the real lock: the events of every episode (a transfer reaches the lock, has obtained it, exchanges a fragment, is over)
+    are replayed in the model; the lock after EACH event must be the real tcs.zone_lock_idx at that moment."""
+    why = lock_shape()
+    ctx.obligation("translator:lock-obtained-before-the-try", not why, "translator", why or "_get_schedule and set_schedule: `await _obtain_lock` then `try ... finally _release_lock`")
+    if not built:
+        ctx.obligation("correspondence:lock-waiters", False, "correspondence", "model not built")
+        return
+    name = {"start": "EStart", "obtained": "EPoll", "exchange": "EExchange", "end": "EEnd"}
+    src = ("From Coq Require Import List Bool Arith.\nFrom RV Require Import M_LockWaiters.\nImport ListNotations.\nSet Printing Width 1000000.\nSet Printing Depth 1000000.\n"
+           "Definition show (l : list (option nat)) : list nat := map (fun o => match o with None => 99 | Some z => z end) l.\n")
+    for _s, evs in cases:
+        src += "Eval vm_compute in (show (locks false init [" + "; ".join(f"{name[k]} {z}" for k, z, _ in evs) + "])).\n"
+    rc, out = common.coq_eval("C18w", {"w": src}, timeout=300)["w"]
+    rows = [eval(o.replace(";", ","), {"__builtins__": {}}) for o in re.findall(r"=\s*(\[.*?\])\s*:\s*list nat", out, flags=re.S)]  # noqa: S307
+    if rc or len(rows) != len(cases):
+        ctx.obligation("correspondence:lock-waiters", False, "correspondence", f"rc={rc} {len(rows)} results for {len(cases)}: {out[-300:]}")
+        return
+    bad = []
+    for (s, evs), row in zip(cases, rows):
+        real = [99 if lk is None else lk for _, _, lk in evs]
+        if list(row) != real:
+            k = next(i for i, (a, b) in enumerate(zip(row, real)) if a != b)
+            bad.append((s, evs[:k + 1], row[k], real[k]))
+    n_ev = sum(len(e) for _, e in cases)
+    n_wait = sum(1 for _, e in cases for i, (k, z, _) in enumerate(e) if k == "end" and any(k2 == "start" and z2 == z for k2, z2, _ in e[:i])
+                 and not any(k2 == "obtained" and z2 == z for k2, z2, _ in e[:i]))
+    ctx.obligation("correspondence:lock-waiters", not bad, "correspondence",
+                   (f"{len(bad)} of {len(cases)} episodes differ; first: steps {bad[0][0]['steps']} fault {bad[0][0]['plan']}: after the events {bad[0][1][-4:]} the model's lock is "
+                    f"{bad[0][2]}, tcs.zone_lock_idx is {bad[0][3]} (99 = free)") if bad
+                   else f"{len(cases)} episodes, {n_ev} lock events ({n_wait} transfers ended while still waiting for the lock): the lock after every event is the model's")
 
 
 def cache_correspondence(ctx: Ctx, built: bool, n: int) -> None:
